@@ -92,6 +92,9 @@ func checkC01(c *Ctx) {
 	c.Clause("the per-backend ReverseProxy is not customised into a transformer (only Transport / FlushInterval / ErrorLog / BufferPool are assigned)")
 	c.Clause("the backend transport has DisableCompression = true (it neither injects Accept-Encoding nor inflates replies)")
 	c.Clause("buildHandler composes RequestContextMiddleware(cfg.Logging)(plugins…(lb))")
+	c.Clause("every path of ServeHTTP on which the proxy call panics (http.ErrAbortHandler after a mid-body backend failure) leaves by that panic: a truncated response is never completed as a clean one")
+	c.Clause("the status-capturing wrapper forwards every status (1xx and final), keeps no per-response state from an earlier request, does not retain the caller's slice in Write, and restores the headers set before proxying after httputil empties the map for an interim response")
+	c.Clause("copy buffers handed to the reverse proxy are exclusive to one copy (a pool that hands out only what was put back, or fresh slices)")
 	c.NotDecided("what net/http and httputil do with the bytes (hop-by-hop headers, framing, 1xx, HEAD); path/query joining for backend base paths; timing of flushes")
 
 	ws := c.wrappers()
@@ -285,6 +288,7 @@ func checkC05(c *Ctx) {
 	c.Clause("least_connections: gauges read atomically; a candidate replaces the choice only when its gauge is smaller, so the result is a minimum of what was read; candidates are health-tested")
 	c.Clause("weights below 1 count as 1 where the backend is created")
 	c.Clause("the in-flight gauge least_connections compares is changed only by an atomic ±1 at request start/end (a lost decrement makes an idle backend look loaded)")
+	c.Clause("weighted_round_robin credits a backend only while it is eligible; reading and publishing the in-flight gauge is one step per backend")
 	c.NotDecided("exact per-window counts of round robin / smooth WRR; the WRR bound after membership changes — numeric results over histories")
 
 	lockDiscipline(c, func(k string) bool {
@@ -543,6 +547,8 @@ func checkC06(c *Ctx) {
 	c.Clause("the result is an element of the health-filtered slice built in the same critical section, indexed by hash mod len / jumpHash(hash, len) of that same slice")
 	c.Clause("jumpHash returns a bucket that was compared below numBuckets (in-range structurally)")
 	c.Clause("the hashing strategies' pools are written (also through helpers that append into a sub-slice) only under the strategy's write lock")
+	c.Clause("the forwarded-for value is reduced to its first element (Split / SplitN n≥2 / Cut) and trimmed before hashing; client-address headers are read through Header.Get or under their canonical map key")
+	c.Clause("jump-hash arithmetic is done at 64-bit width on the key the loop advances")
 	c.NotDecided("minimal remapping of the integer jump-hash variant over all 2^32 keys × pool sizes (a numeric for-all)")
 
 	c.strategyHealthGuard("IPHashStrategy", "IPHashConsistentStrategy")
